@@ -74,7 +74,7 @@ OutOf(n, v) == (n :> [n |-> n, i |-> v])
 \* echo nodes return their input unchanged (so that equal keys can meet at a fan-in and the merge can fail)
 NodeOut(gg, n, v) == IF n \in Range(gg.echo) THEN v ELSE OutOf(n, v)
 \* the harness state carries pointer (nil / non-nil) and container fields that no handler touches: their digest must never change
-FreshStateDigest == "true|7|1|u,v|5|true|3"
+FreshStateDigest == "true|7|1|u,v|5|true|3|own"
 \* state handlers that modify what they pass on (scenario flag hmod): the pre-handler adds the key "pre" to the node's input,
 \* the post-handler adds the key "q<node>" to its output -- "the values they return are what the node and its successors receive"
 HMod(gg) == gg.state /\ gg.hmod
@@ -376,7 +376,8 @@ OnInterrupt(S, e) ==
 OnResume(S, e) ==
   IF S.top.st # "interrupted" THEN BadS(S, "resume-without-interrupt")
   ELSE [S EXCEPT !.fr = [p \in DOMAIN S.fr |-> [S.fr[p] EXCEPT !.step = 1,       \* the step limit applies per call
-                                                                !.cs = IF p = "" THEN S.fr[p].cs + e.mod ELSE S.fr[p].cs]],  \* caller-supplied state modification
+                                                                \* caller-supplied state modification: handed to every graph that is resumed with a state of its own
+                                                                !.cs = IF S.fr[p].g.state THEN S.fr[p].cs + e.mod ELSE S.fr[p].cs]],
                  !.top.st = "run"]
 
 EndS(S) == [S EXCEPT !.top.st = "ended"]
